@@ -1,4 +1,5 @@
 import BridgeVerif.Lemmas.Admission
+import BridgeVerif.Lemmas.AdmissionLoop
 /-!
 # C20 — Admission seats one conforming client per seat and turns the others away
 
@@ -71,6 +72,27 @@ theorem order_matters :
     (serve Table.empty [⟨"a".toList, .N, 18⟩, ⟨"b".toList, .S, 18⟩]).2 = [.seated, .teamMismatch] ∧
     (serve Table.empty [⟨"b".toList, .S, 18⟩, ⟨"a".toList, .N, 18⟩]).2 = [.seated, .teamMismatch] := by
   decide
+
+/-- **The connection thread and the accept loop as the code writes them.**  `Admission.acceptLoopR`
+(Model/Admission.lean) is `Server.run`'s accept loop driving `PlayerThread._connect` (`connectR`): every connection's
+request TEXT is parsed (`parse_connection_info`), tested against the seat table, answered, and a seated client's
+"<Seat> ready for teams" is awaited and checked before the thread signals its verdict.  For well-formed requests from
+conforming clients (`conns` = request texts built by `connectMsg` in any letter case of the seat name, each followed by the
+expected acknowledgement) the loop IS the fold `serve` over the parsed requests: same final table, one round of
+accept / start / wait-for-verdict / sleep / is_alive / clear per served request, a seated thread performs
+receive · reply "seated" · receive · signal, a rejected one receive · error reply · close · signal. -/
+theorem accept_loop_is_the_fold (reqs : List Request) (hn : ∀ r ∈ reqs, NameOK r.team) :
+    let conns := reqs.map fun r => (connectMsg r.team r.seat.formal r.version, r.seat.formal ++ " ready for teams".toList)
+    ∃ opss mops,
+      Admission.acceptLoopR Table.empty conns = some (opss, mops, (serve Table.empty reqs).1) ∧
+      opss.length = (serve Table.empty reqs).2.length ∧
+      mops = (List.replicate (serve Table.empty reqs).2.length Admission.acceptRound).flatten ∧
+      ∀ i (h₁ : i < opss.length) (h₂ : i < (serve Table.empty reqs).2.length),
+        ((serve Table.empty reqs).2[i] = .seated →
+            ∃ reply, opss[i] = [.recv, .send reply, .recv, .signal]) ∧
+        ((serve Table.empty reqs).2[i] ≠ .seated →
+            ∃ reply, opss[i] = [.recv, .send reply, .close, .signal]) :=
+  acceptLoop_serve reqs hn
 
 /-! ### non-vacuity: a sequence with every kind of rejection that ends with a full table -/
 example :
